@@ -1,7 +1,7 @@
 """C16 — issued certificates (new_cert and wrappers). DESIGN §4 C16."""
 import ast
 
-from .common import ctx, returns, calls_in_ctx, site, srcs_text
+from .common import ctx, returns, calls_in_ctx, site, srcs_text, full_text
 from ..flow import callee_attr
 from ..linexpr import lin, show, NotLinear
 from ..loader import AnalysisError, norm, NOVALUE
@@ -174,8 +174,14 @@ def run(R):
                 if a[4:] != ['start_time', 'end_time']:
                     probs.append(f'validity passed as {a[4:]}')
             else:
-                if a[5] != 'end_time':
-                    probs.append(f'validity end passed as {a[5]}')
+                end = calls[0].args[5]
+                cn = cx.node_of(calls[0])
+                ends = {full_text(cx, end)}
+                if isinstance(end, ast.Name) and full_text(cx, end) == end.id:
+                    ends = {ast.unparse(v) for (d, v) in cx.cfg.defs_reaching(cn, end.id) if isinstance(v, ast.AST)} or ends
+                want = 'timedelta(days=10)' if fn == 'sign_req' else '.replace(year='
+                if not all(want in e for e in ends):
+                    probs.append(f'validity end passed as {sorted(ends)} (expected an expression with {want})')
         if probs:
             R.fail('C16.PRV.2', inst, cx.qual, calls[0] if calls else 'def ' + fn, '; '.join(probs), site(cx, cx.f.node))
         else:
